@@ -270,7 +270,7 @@ func (t *tree) payload() []byte {
 	return p
 }
 
-var dumpTags = []int{1, 2, 3, 15, 16, 2047, 2048, 1 << 26, 1<<29 - 1}
+var dumpTags = []int{1, 2, 3, 15, 16, 2047, 2048, 1<<18 - 1, 1 << 18, 1<<25 - 1, 1 << 25, 1 << 26, 1<<29 - 1}
 
 func randTree(r *hx.Rng, depth int) *tree {
 	t := &tree{num: dumpTags[r.Intn(len(dumpTags))]}
